@@ -1,9 +1,11 @@
 // qxv caps — drives the real QXmppDiscoveryIq / QXmppDiscoveryManager / QXmppClient along behaviours of
 // spec/Caps.tla (property C20).
 //
-// Behaviour: {"alpha":["","a","b",..], "lm1":false, "steps":[{"a":"AddFeature","f":2,"t":"change","c":[2,1000]}, ...]}
+// Behaviour: {"alpha":["","a","b",..], "mk":"list-multi", "steps":[{"a":"AddFeature","f":2,"t":"change","c":[2,1000]}, ...]}
 //   atoms of the specification are substituted by alpha[atom] (lib/props/C20.py chooses the alphabet; its order is
-//   the octet order of the strings).  lm1: single-valued fields are list-multi too.
+//   the octet order of the strings; alpha[0] is the empty string, which may stand in every role).
+//   A field is single-valued (text-single) or multi-valued ("m":true; the behaviour's "mk" says which of
+//   list-multi / jid-multi / text-multi) with 0, 1, 2+ values, empty and repeated members included.
 //
 // After every edit the info set is turned, IN THE GIVEN ORDER, into a fresh QXmppDiscoveryIq (setIdentities,
 // setFeatures, setForm) and logged:
@@ -40,6 +42,7 @@ struct FieldS {
     QString var;
     QStringList vals;
     QString type;  // only for probes: explicit field type
+    bool multi = false;
 };
 struct Info {
     QList<QStringList> ids;  // c, t, l, n
@@ -75,7 +78,7 @@ QXmppDataForm::Field::Type typeFromString(const QString &t)
     return F::TextSingleField;
 }
 
-QXmppDataForm dataForm(const Info &i, bool lm1)
+QXmppDataForm dataForm(const Info &i, const QString &mk)
 {
     using F = QXmppDataForm::Field;
     if (!i.formOn) {
@@ -98,10 +101,10 @@ QXmppDataForm dataForm(const Info &i, bool lm1)
             fs << F(t, f.var, v);
         } else if (f.var == "FORM_TYPE") {
             fs << F(F::HiddenField, f.var, f.vals.value(0));
-        } else if (lm1 || f.vals.size() != 1) {
-            fs << F(F::ListMultiField, f.var, f.vals);
+        } else if (f.multi) {
+            fs << F(typeFromString(mk), f.var, f.vals);  // a QStringList, whatever the multi kind
         } else {
-            fs << F(F::TextSingleField, f.var, f.vals[0]);
+            fs << F(F::TextSingleField, f.var, f.vals.value(0));
         }
     }
     return QXmppDataForm(QXmppDataForm::Result, fs);
@@ -111,7 +114,7 @@ QJsonArray jfields(const QList<FieldS> &fs)
 {
     QJsonArray a;
     for (const auto &f : fs) {
-        QJsonObject o { { "var", f.var }, { "vals", jarr(f.vals) } };
+        QJsonObject o { { "var", f.var }, { "vals", jarr(f.vals) }, { "multi", f.multi } };
         if (!f.type.isEmpty()) {
             o["type"] = f.type;
         }
@@ -177,7 +180,7 @@ QDomElement firstChildNs(const QDomElement &el, const QString &tag, const QStrin
     return {};
 }
 
-QJsonObject observeDirect(const Info &info, bool lm1)
+QJsonObject observeDirect(const Info &info, const QString &mk)
 {
     QXmppDiscoveryIq iq;
     iq.setType(QXmppIq::Result);
@@ -185,7 +188,7 @@ QJsonObject observeDirect(const Info &info, bool lm1)
     iq.setIdentities(identities(info));
     iq.setFeatures(info.feats);
     if (info.formOn) {
-        iq.setForm(dataForm(info, lm1));
+        iq.setForm(dataForm(info, mk));
     }
     QByteArray xml;
     QXmlStreamWriter w(&xml);
@@ -264,10 +267,10 @@ struct ClientRig {
         client->takeSent();
     }
 
-    void apply(const Info &info, bool lm1)
+    void apply(const Info &info, const QString &mk)
     {
         ext->info = info;
-        disco->setClientInfoForm(dataForm(info, lm1));
+        disco->setClientInfoForm(dataForm(info, mk));
     }
 
     // the <c/> of the last presence among the packets the client just sent
@@ -379,14 +382,14 @@ QXV_DRIVER(caps)
         if (b.contains("probe")) {
             // a hand-written info set outside the model (triage corpus): observed, never judged by the monitor
             auto info = infoFromJson(b["probe"].toObject());
-            ctx.reset(caseId, { { "probe", b["name"].toString() }, { "o", observeDirect(info, false) } });
+            ctx.reset(caseId, { { "probe", b["name"].toString() }, { "o", observeDirect(info, QStringLiteral("list-multi")) } });
             continue;
         }
         QStringList alpha;
         for (const auto &a : b["alpha"].toArray()) {
             alpha << a.toString();
         }
-        const bool lm1 = b["lm1"].toBool();
+        const QString mk = b["mk"].toString(QStringLiteral("list-multi"));
         const auto steps = b["steps"].toArray();
         const auto A = [&](const QJsonValue &v) {
             int a = v.toInt();
@@ -408,17 +411,17 @@ QXV_DRIVER(caps)
             }
             // execution boundary: empty harness extension, no info form, and the presence the client
             // keeps for (re)connects announced in that state
-            rig.apply(info, lm1);
+            rig.apply(info, mk);
             rig.client->setClientPresence(QXmppPresence(QXmppPresence::Available));
             QCoreApplication::processEvents();
             rig.client->takeSent();
         }
-        ctx.reset(caseId, { { "o", observeDirect(info, lm1) }, { "lm1", lm1 }, { "client", usesClient } });
+        ctx.reset(caseId, { { "o", observeDirect(info, mk) }, { "mk", mk }, { "client", usesClient } });
         for (const auto &sv : steps) {
             const auto s = sv.toObject();
             const auto a = s["a"].toString();
             QJsonObject ev { { "e", a }, { "t", s["t"] }, { "c", s["c"] } };
-            for (const auto &k : { "i", "j", "f", "g", "v", "var", "x", "q" }) {
+            for (const auto &k : { "i", "j", "f", "g", "v", "var", "x", "q", "m" }) {
                 if (s.contains(k)) {
                     ev[k] = s[k];
                 }
@@ -460,21 +463,24 @@ QXV_DRIVER(caps)
                 if (ok) info.feats.swapItemsAt(i, i + 1);
             } else if (a == "SetForm") {
                 info.formOn = true;
-                info.fields = { FieldS { "FORM_TYPE", { A(s["v"]) }, {} } };
+                info.fields = { FieldS { "FORM_TYPE", { A(s["v"]) }, {}, false } };
             } else if (a == "DropForm") {
                 info.formOn = false;
                 info.fields.clear();
             } else if (a == "AddField") {
                 ok = info.formOn;
-                if (ok) info.fields << FieldS { A(s["var"]), { A(s["v"]) }, {} };
+                if (ok) info.fields << FieldS { A(s["var"]), { A(s["v"]) }, {}, s["m"].toBool() };
             } else if (a == "RemoveField") {
                 ok = fieldOk();
                 if (ok) info.fields.removeAt(i);
             } else if (a == "RenameField") {
                 ok = fieldOk();
                 if (ok) info.fields[i].var = A(s["var"]);
+            } else if (a == "RetypeField") {
+                ok = fieldOk() && info.fields[i].vals.size() == 1;
+                if (ok) info.fields[i].multi = !info.fields[i].multi;
             } else if (a == "AddValue") {
-                ok = fieldOk();
+                ok = fieldOk() && info.fields[i].multi;
                 if (ok) info.fields[i].vals << A(s["v"]);
             } else if (a == "RemoveValue") {
                 ok = fieldOk() && j >= 0 && j < info.fields[i].vals.size();
@@ -504,9 +510,9 @@ QXV_DRIVER(caps)
                 break;  // the behaviour asks for an edit the info set does not admit
             }
             if (usesClient) {
-                rig.apply(info, lm1);
+                rig.apply(info, mk);
             }
-            ev["o"] = observeDirect(info, lm1);
+            ev["o"] = observeDirect(info, mk);
             ctx.emit_(ev);
         }
     }
